@@ -943,6 +943,12 @@ class Interp:
         "std::result::Result::<T, E>::unwrap_or_else": ("res", {"Ok": ("payload", None), "Err": ("call", 1, True, None)}),
         "std::result::Result::<T, E>::unwrap_or": ("res", {"Ok": ("payload", None), "Err": ("arg", 1, None)}),
         "std::result::Result::<T, E>::ok": ("res", {"Ok": ("payload", "Some"), "Err": ("const", "None")}),
+        "std::result::Result::<T, E>::map_or_else": ("res", {"Ok": ("call", 2, True, None), "Err": ("call", 1, True, None)}),
+        "std::result::Result::<T, E>::map_or": ("res", {"Ok": ("call", 2, True, None), "Err": ("arg", 1, None)}),
+        "std::result::Result::<T, E>::or_else": ("res", {"Ok": ("same",), "Err": ("call", 1, True, None)}),
+        "std::result::Result::<T, E>::err": ("res", {"Ok": ("const", "None"), "Err": ("payload", "Some")}),
+        "std::option::Option::<T>::or_else": ("opt", {"Some": ("same",), "None": ("call", 1, False, None)}),
+        "std::option::Option::<T>::or": ("opt", {"Some": ("same",), "None": ("arg", 1, None)}),
         "std::option::Option::<T>::filter": ("opt", {"Some": ("filter", 1), "None": ("const", "None")}),
         "std::option::Option::<T>::is_some": ("opt", {"Some": ("bool", 1), "None": ("bool", 0)}),
         "std::option::Option::<T>::is_none": ("opt", {"Some": ("bool", 0), "None": ("bool", 1)}),
